@@ -698,8 +698,82 @@ func adminStore() string {
 	return sortedSet(out)
 }
 
+// hookControllers: for every provisioner type, whether its AuthorizeSign / AuthorizeSSHSign hands
+// the signing code a webhook controller, and for which certificate type.
+func hookControllers() string {
+	out := map[string]bool{}
+	for _, f := range parseDir("authority/provisioner") {
+		for _, d := range f.Decls {
+			fd, ok := d.(*ast.FuncDecl)
+			if !ok || fd.Body == nil || fd.Recv == nil || (fd.Name.Name != "AuthorizeSign" && fd.Name.Name != "AuthorizeSSHSign") {
+				continue
+			}
+			rt := fd.Recv.List[0].Type
+			if st, ok := rt.(*ast.StarExpr); ok {
+				rt = st.X
+			}
+			typ := exprString(rt)
+			val := "-"
+			ast.Inspect(fd.Body, func(n ast.Node) bool {
+				c, ok := n.(*ast.CallExpr)
+				if !ok || calleeName(c) != "newWebhookController" || len(c.Args) < 2 {
+					return true
+				}
+				if sel, ok := c.Args[1].(*ast.SelectorExpr); ok {
+					val = strings.TrimPrefix(sel.Sel.Name, "Webhook_")
+				} else {
+					val = "?"
+				}
+				return true
+			})
+			out[typ+"."+fd.Name.Name+"="+val] = true
+		}
+	}
+	return sortedSet(out)
+}
+
+// routes: the POST routes of api.Route and the handler each is bound to.
+func routes() string {
+	out := map[string]bool{}
+	fset := token.NewFileSet()
+	f, err := parser.ParseFile(fset, filepath.Join(repoRoot(), "api/api.go"), nil, 0)
+	if err != nil {
+		return "#parse"
+	}
+	fd := findFuncDecl(f, "Route")
+	if fd == nil {
+		return "#missing"
+	}
+	ast.Inspect(fd.Body, func(n ast.Node) bool {
+		c, ok := n.(*ast.CallExpr)
+		if !ok || calleeName(c) != "MethodFunc" || len(c.Args) != 3 {
+			return true
+		}
+		m, ok1 := c.Args[0].(*ast.BasicLit)
+		p, ok2 := c.Args[1].(*ast.BasicLit)
+		if ok1 && ok2 && m.Value == `"POST"` {
+			out[strings.Trim(p.Value, `"`)+">"+exprString(c.Args[2])] = true
+		}
+		return true
+	})
+	return sortedSet(out)
+}
+
+func findFuncDecl(f *ast.File, name string) *ast.FuncDecl {
+	for _, d := range f.Decls {
+		if fd, ok := d.(*ast.FuncDecl); ok && fd.Recv == nil && fd.Name.Name == name {
+			return fd
+		}
+	}
+	return nil
+}
+
 func srcOrder(fn string) string {
 	switch fn {
+	case "@routes":
+		return routes()
+	case "@hookControllers":
+		return hookControllers()
 	case "@storers":
 		return storers()
 	case "@adminStore":
@@ -734,7 +808,7 @@ func srcOrder(fn string) string {
 // attempts made:  ok=A1A1A1A1A1 error=A2R2R2R2R2 …  (columns: ok error timeout deny malformed).
 func webhookTable() string {
 	kinds := []string{"ok", "error", "timeout", "deny", "malformed"}
-	srv := webhookServer()
+	srv := webhookServer("", "")
 	defer srv.Close()
 	cells := make([][]string, len(kinds))
 	var wg sync.WaitGroup
